@@ -465,6 +465,13 @@ def u10(ctx, rid):
         raise core.AnchorLost('Vec::insert in IndexStruct::push: %d' % n)
 
 
+def u11(ctx, rid):
+    """the cross-blob merge behind read / read_with / contains / the duplicate check: strict comparison, NotFound below every
+    record (C01.R3 instances)"""
+    import props.c01 as c01
+    c01.r3(ctx, rid)
+
+
 RULES = [
     Rule('C02.U1', 'the append in the write path is dominated by the duplicate policy branch; a found duplicate is acknowledged without storing', u1, 1),
     Rule('C02.U2', 'closed blobs are only ever marked with only_if_presented = true', u2, 2),
@@ -475,5 +482,6 @@ RULES = [
     Rule('C02.U8', 'metadata equality in the meta lookup is decided on decoded maps, never on serialized bytes', u8, 1),
     Rule('C02.U9', 'on-disk version lists: leaf cursors move by whole record headers (C04.T12 instances)', u9, 4),
     Rule('C02.U10', 'equal timestamps: the in-memory insertion position is behind every record with the same timestamp (append recency)', u10, 1),
+    Rule('C02.U11', 'the cross-blob merge keeps the first-seen result on ties and ranks NotFound below every record (C01.R3 instances)', u11, 2),
     Rule('C02.U6', 'the point lookup consults every candidate closed blob before it returns Ok', u6, 1),
 ]
